@@ -192,8 +192,28 @@ Qed.
 Lemma make_from_slice_eq a : option_map w (M_SmtString_make_from_slice a) = smt_make a.
 Proof. unfold M_SmtString_make_from_slice, SmtString_make_from_slice. apply make_eq. Qed.
 
+Ltac gbools :=
+  repeat match goal with
+         | |- context [N.leb ?a ?b] => destruct (N.leb a b) eqn:?
+         | |- context [N.ltb ?a ?b] => destruct (N.ltb a b) eqn:?
+         | |- context [N.eqb ?a ?b] => destruct (N.eqb a b) eqn:?
+         end.
+Lemma bind_ret {A} (o : option A) : bind o (fun t => Some t) = o.
+Proof. destruct o; reflexivity. Qed.
+
 Lemma from_u32_eq x : option_map w (M_SmtString_from_u32 x) = smt_from_u32 x.
-Proof. unfold M_SmtString_from_u32, SmtString_from_u32, smt_from_u32. apply make_eq. Qed.
+Proof.
+  unfold M_SmtString_from_u32, SmtString_from_u32, smt_from_u32. rewrite ?bind_ret, make_eq.
+  match goal with
+  | |- smt_make [?a] = smt_make [?b] =>
+      replace a with b by (cbv [MAX_CHAR REPLACEMENT_CHAR MAXC REPLC]; gbools; cbn [negb];
+                           first [reflexivity | (exfalso; lia)])
+  end.
+  reflexivity.
+Qed.
+
+Lemma link_is_empty s : M_SmtString_is_empty s = Some (match w s with [] => true | _ :: _ => false end).
+Proof. destruct s as [[|x l]]; reflexivity. Qed.
 
 Lemma link_str_concat s1 s2 : option_map w (M_fn_str_concat s1 s2) = str_concat (w s1) (w s2).
 Proof. unfold M_fn_str_concat, fn_str_concat, str_concat, M_fn_vector_concat, fn_vector_concat. cbv [bind]. apply make_eq. Qed.
@@ -318,7 +338,7 @@ Definition replace_all_fuel (s p : list N) : nat := (search_fuel p s + S (length
 Lemma link_str_replace_all fuel s p r : (replace_all_fuel (w s) (w p) <= fuel)%nat ->
   option_map w (M_fn_str_replace_all fuel s p r) = str_replace_all (w s) (w p) (w r).
 Proof.
-  intros Hf. unfold M_fn_str_replace_all, fn_str_replace_all, str_replace_all, M_SmtString_is_empty, SmtString_is_empty.
+  intros Hf. unfold M_fn_str_replace_all, fn_str_replace_all, str_replace_all. rewrite link_is_empty.
   cbv [bind]. destruct (w p) as [|c p'] eqn:Ep; [apply make_from_slice_eq|].
   rewrite <- (link_replace_all_loop (c :: p') (w s) (w r) ltac:(discriminate) (S (length (w s))) fuel [] 0);
     [| lia | lia | unfold replace_all_fuel in Hf; exact Hf].
